@@ -461,6 +461,17 @@ def yaml_kind(text):
     return "other"
 
 
+@functools.lru_cache(maxsize=None)
+def yaml_value(text):
+    """What a stock YAML reader makes of a text (the text itself when it cannot be read).  Cached: read-only use."""
+    import yaml
+
+    try:
+        return yaml.safe_load(text)
+    except Exception:
+        return text
+
+
 def vclass(v):
     """Shape class of an (encoded) value, for signatures."""
     if v is None:
@@ -1278,12 +1289,7 @@ def judge_default(case):
         equal = any(py_equal(pv, a) for a in alts)
         same = equal and conforms(pv, spec) is None  # the default itself (exact types)
     else:
-        import yaml
-
-        try:
-            pv = yaml.safe_load(v)
-        except Exception:
-            pv = v
+        pv = yaml_value(v)
         equal = any(py_equal(pv, a) or py_equal(v, a) for a in alts)
         same = False
     eq = "equals-the-default" if equal else "differs-from-the-default"
